@@ -4,3 +4,4 @@ import PahoProofs.Properties.C10
 import PahoProofs.Properties.C06Ws
 import PahoProofs.Properties.C06WsWriter
 import PahoProofs.Properties.C06TcpWriter
+import PahoProofs.Properties.FnLoopRc
